@@ -37,7 +37,7 @@ pub fn def() -> PropertyDef {
     }
 }
 
-const GENS: &[&str] = &["bytes", "soup", "corpus", "grammar", "e1", "multifile", "trivia", "witness"];
+const GENS: &[&str] = &["bytes", "soup", "corpus", "grammar", "e1", "multifile", "trivia", "witness", "defgraphs"];
 
 /// Inputs on which the front end once panicked, aborted or looped (found by the monitors or reported by independent
 /// seeding agents and reproduced): each runs in every check, alone and behind the prelude.
@@ -77,6 +77,7 @@ fn generators(cfg: &Cfg) -> Vec<Generator> {
         Generator { name: "multifile", total: cfg.tier.pick(2_000, 100_000), run: run_multifile, case_cpu_limit_s: 60 },
         Generator { name: "trivia", total: cfg.tier.pick(4_000, 250_000), run: run_trivia, case_cpu_limit_s: 60 },
         Generator { name: "witness", total: 2 * WITNESSES.len() as u64, run: run_witness, case_cpu_limit_s: 60 },
+        Generator { name: "defgraphs", total: cfg.tier.pick(1_200, 60_000), run: run_defgraphs, case_cpu_limit_s: 60 },
     ]
 }
 
@@ -137,6 +138,57 @@ fn make_input(generator: &str, cfg: &Cfg, index: u64) -> Input {
             // additionally a token-level mutation half of the time (well-formed syntax, ill-formed meaning vs. broken syntax)
             let text = if rng.chance(1, 2) { mutate::mutate_tokens(&text, &mut rng, 1) } else { text };
             Input::Overlay(Sources::single(text))
+        }
+        | "defgraphs" => {
+            // A random graph of type definitions - sealed (`define`, `def`) and transparent (`let`) - in which every
+            // definition is another definition, a type former over definitions, an application of a type function, or a
+            // base type: chains, chains that lead into a cycle, cycles entered at a member, diamonds. One to three
+            // judgments then have to look through some of them (tuple and constructor patterns, tuple and constructor
+            // checks, annotations, applications). Whatever the graph, the answer is a verdict, not a crash or a loop.
+            let n = 1 + rng.below(5);
+            let names: Vec<String> = (0..n).map(|i| format!("N{i}")).collect();
+            let mut text = String::from("begin\n");
+            let data = rng.chance(1, 3);
+            if data {
+                text.push_str("  def Box (A : VType) : VType = data | +Box : A end that\n");
+            }
+            text.push_str(if rng.chance(1, 2) { "  def Id (A : VType) : VType = A that\n" } else { "  let Id (A : VType) : VType = A that\n" });
+            let mut order: Vec<usize> = (0..n).collect();
+            rng.shuffle(&mut order);
+            for i in order {
+                let pick = |rng: &mut Rng| names[rng.below(n)].clone();
+                let body = match rng.below(10) {
+                    | 0..=3 => pick(&mut rng),
+                    | 4 => format!("{} * {}", pick(&mut rng), pick(&mut rng)),
+                    | 5 => format!("Thk (Ret {})", pick(&mut rng)),
+                    | 6 => "Int64 * Int64".to_string(),
+                    | 7 if data => format!("Box {}", pick(&mut rng)),
+                    | 7 => "Int64".to_string(),
+                    | 8 => format!("Id {}", pick(&mut rng)),
+                    | _ => format!("({} : VType)", pick(&mut rng)),
+                };
+                let keyword = *rng.pick(&["define", "define", "def", "let"]);
+                let annotation = if rng.chance(2, 3) { " : VType" } else { "" };
+                text.push_str(&format!("  {keyword} {}{annotation} = {body} that\n", names[i]));
+            }
+            let uses = 1 + rng.below(3);
+            for u in 0..uses {
+                let t = names[rng.below(n)].clone();
+                match rng.below(8) {
+                    | 0 => text.push_str(&format!("  let f{u} = {{ fn (x : {t}) => match x | (a, b) => ret a end }} that\n")),
+                    | 1 => text.push_str(&format!("  let v{u} : {t} = (1, 2) that\n")),
+                    | 2 => text.push_str(&format!("  let f{u} = {{ fn ((a, b) : {t}) => ret b }} that\n")),
+                    | 3 if data => text.push_str(&format!("  let v{u} : {t} = +Box(1) that\n")),
+                    | 3 => text.push_str(&format!("  let v{u} : {t} = 1 that\n")),
+                    | 4 if data => text.push_str(&format!("  let f{u} = {{ fn (x : {t}) => match x | +Box(y) => ret y end }} that\n")),
+                    | 4 => text.push_str(&format!("  let f{u} = {{ fn (x : {t}) => ret (x : Int64) }} that\n")),
+                    | 5 => text.push_str(&format!("  let f{u} = {{ fn (x : {t}) => ! x }} that\n")),
+                    | 6 => text.push_str(&format!("  let f{u} = {{ fn (x : {t}) (y : {}) => ret ((x : {}), y) }} that\n", names[rng.below(n)], names[rng.below(n)])),
+                    | _ => text.push_str(&format!("  let f{u} = {{ fn (x : {t}) => do (a, b) <- ret x; ret a }} that\n")),
+                }
+            }
+            text.push_str("  ! exit 0\nend\n");
+            Input::Overlay(Sources::single(format!("{}{}", MiniPrelude::core().text(), text)))
         }
         | "witness" => {
             let w = WITNESSES[(index / 2) as usize];
@@ -419,6 +471,10 @@ fn run_trivia(cfg: &Cfg, index: u64, stats: &mut Stats) {
 }
 fn run_witness(cfg: &Cfg, index: u64, stats: &mut Stats) {
     run_case("witness", cfg, index, stats)
+}
+
+fn run_defgraphs(cfg: &Cfg, index: u64, stats: &mut Stats) {
+    run_case("defgraphs", cfg, index, stats)
 }
 
 /// A shard died or ran out of CPU on a case: decide by running the real CLI on the same input.
